@@ -62,7 +62,7 @@ func cloneBlock(kind string, b aggsync.Block) aggsync.Block {
 // WithDB path, which runs the same code except for the constructor and the migration call.
 var realOpens atomic.Int64
 
-const realOpenBudget = 4500
+const realOpenBudget = 2500
 
 func openStore(kind, path string) (*store, error) {
 	if realOpens.Add(1) > realOpenBudget {
